@@ -110,6 +110,14 @@ def main():
             meta = json.load(open(mp))
         except Exception:
             meta = {'raw': open(mp).read()}
+    if isinstance(meta.get('evaluation'), dict) and meta['evaluation'].get('checks'):
+        # keep what earlier versions of the checks reported for this change (exit code and violation count per check)
+        prev = meta['evaluation']
+        meta.setdefault('earlier_evaluations', []).append(
+            {'verif_commit': prev.get('verif_commit'), 'checks': {k: {'exit': v.get('exit'), 'violations': v.get('violations'),
+                                                                    'tier': v.get('tier')} for k, v in prev['checks'].items()}})
+    rcg, og = sh('git -C %s rev-parse --short HEAD' % VERIF)
+    out['verif_commit'] = og.strip()
     meta['evaluation'] = out
     json.dump(meta, open(mp, 'w'), indent=1)
     print(json.dumps(out, indent=1))
